@@ -1584,3 +1584,26 @@ func gzipReaderRule(c *Ctx, r *Report, sf *ssa.Function, rule string) {
 	}
 
 }
+
+// crossLineStateRule (C07-R4 / C14-R1, same analysis as C06-R1a): package-level state that
+// is both written and read by the given functions survives from one line to the next.
+func crossLineStateRule(c *Ctx, r *Report, fns map[*ssa.Function]bool, rule, consequence string) {
+	mr := c.modRef(fns)
+	var gs []*ssa.Global
+	for g := range mr {
+		gs = append(gs, g)
+	}
+	sort.Slice(gs, func(i, j int) bool { return gs[i].Name() < gs[j].Name() })
+	n := 0
+	for _, g := range gs {
+		u := mr[g]
+		if len(u.reads) > 0 && len(u.writes) > 0 {
+			n++
+			r.Bad(rule, "global:"+g.Name(), c.InstrPos(u.writes[0]),
+				fmt.Sprintf("package-level state is written (%s) and read (%s) while processing lines: %s", c.InstrPos(u.writes[0]), c.InstrPos(u.reads[0]), consequence))
+		}
+	}
+	if n == 0 {
+		r.OK(rule, "no-cross-line-state", "-", fmt.Sprintf("%d package-level variables are touched, none is both written and read", len(gs)))
+	}
+}
